@@ -11,6 +11,9 @@ pub mod c09;
 pub mod c10;
 pub mod recs;
 pub mod c20;
+pub mod src;
+pub mod c02;
+pub mod probe;
 
 #[cfg(not(kani))]
 pub fn registry() -> Vec<(&'static str, fn(&mut nd::TapeNd))> {
@@ -18,5 +21,6 @@ pub fn registry() -> Vec<(&'static str, fn(&mut nd::TapeNd))> {
     v.extend(c09::registry());
     v.extend(c10::registry());
     v.extend(c20::registry());
+    v.extend(c02::registry());
     v
 }
